@@ -6,7 +6,7 @@
    The operators are pure functions of immutable values in the model: operands cannot change. *)
 From Coq Require Import ZArith Reals Lra Lia Bool List.
 From Coq Require Import Uint63 Floats.
-From Flocq Require Import Core BinarySingleNaN PrimFloat.
+From Flocq Require Import Core BinarySingleNaN PrimFloat Relative.
 From PyLib Require Import PyVal PyBuiltins B64 B64Verified B64Mono Whnf PyEval B64Eval.
 From Spec Require Import AngleSpec.
 From Gen Require Import M_base M_Angle.
@@ -197,14 +197,54 @@ Qed.
 
 (* =========================================================================================
    Real-value reading: the result holds exactly red360 (RN v), v the real operation. *)
+(* one rounding: |RN v - v| <= 2^-53 |v| + 2^-1075 (Flocq error_N_FLT), which is below the property's
+   tolerance 1e-9 * max(1, |v|) *)
+Lemma RN_rel v : Rabs (RN v - v) <= bpow radix2 (-53) * Rabs v + bpow radix2 (-1075).
+Proof.
+  destruct (error_N_FLT radix2 (3 - emax - prec) prec Hprec (fun x => negb (Z.even x)) v)
+    as (eps & eta & He & Ht & _ & E).
+  change (round radix2 (FLT_exp (3 - emax - prec) prec) (Znearest (fun x => negb (Z.even x))) v) with (RN v) in E.
+  rewrite E. replace (v * (1 + eps) + eta - v) with (v * eps + eta) by ring.
+  eapply Rle_trans; [apply Rabs_triang|]. rewrite Rabs_mult.
+  assert (bpow radix2 (-53) = / 2 * bpow radix2 (- prec + 1)) as E1
+    by (change (-53)%Z with (-1 + (- prec + 1))%Z; rewrite (bpow_plus radix2 (-1) (- prec + 1)); reflexivity).
+  assert (bpow radix2 (-1075) = / 2 * bpow radix2 (3 - emax - prec)) as E2
+    by (change (-1075)%Z with (-1 + (3 - emax - prec))%Z; rewrite (bpow_plus radix2 (-1) (3 - emax - prec)); reflexivity).
+  rewrite <- E1 in He. rewrite <- E2 in Ht.
+  apply Rplus_le_compat; [|exact Ht].
+  rewrite Rmult_comm. apply Rmult_le_compat_r; [apply Rabs_pos | exact He].
+Qed.
+
+Lemma bpow_m53_small : bpow radix2 (-53) <= 5 / 10000000000.
+Proof.
+  change (bpow radix2 (-53)) with (/ IZR (Z.pow_pos 2 53)). simpl.
+  apply Rmult_le_reg_r with 9007199254740992; [lra|]. rewrite Rinv_l by lra. lra.
+Qed.
+
+Lemma RN_tol v : Rabs (RN v - v) <= 1 / 1000000000 * Rmax 1 (Rabs v).
+Proof.
+  eapply Rle_trans; [apply RN_rel|].
+  pose proof bpow_m53_small as B1.
+  assert (bpow radix2 (-1075) <= bpow radix2 (-53)) as B2 by (apply bpow_le; lia).
+  pose proof (Rmax_l 1 (Rabs v)) as M1. pose proof (Rmax_r 1 (Rabs v)) as M2. pose proof (Rabs_pos v) as P.
+  assert (bpow radix2 (-53) * Rabs v <= 5 / 10000000000 * Rabs v) by (apply Rmult_le_compat_r; assumption).
+  lra.
+Qed.
+
 Definition op_ok (res : val PrimFloat.float) (v : R) : Prop :=
   exists r, res = angb r tol64 /\ fin r /\ RV r = red360 (RN v) /\ Rabs (RV r) < 360 /\
-            (0 <= RN v -> 0 <= RV r) /\ (RN v <= 0 -> RV r <= 0).
+            (0 <= RN v -> 0 <= RV r) /\ (RN v <= 0 -> RV r <= 0) /\
+            (* congruent modulo 360 to the EXACT real v within the property's tolerance *)
+            exists k : Z, Rabs (RV r - (v + 360 * IZR k)) <= 1 / 1000000000 * Rmax 1 (Rabs v).
 Definition no_overflow (v : R) : Prop := Rabs (RN v) < bpow radix2 emax.
 
 Lemma holds_ok res r x v : res = angb r tol64 -> holds_red r x -> RV x = RN v -> op_ok res v.
 Proof.
-  intros E (Fr & Hr & Hb & Hp & Hn) Ex. rewrite Ex in *. exists r. repeat split; assumption.
+  intros E (Fr & Hr & Hb & Hp & Hn) Ex. rewrite Ex in *. exists r.
+  split; [exact E|]. split; [exact Fr|]. split; [exact Hr|]. split; [exact Hb|]. split; [exact Hp|].
+  split; [exact Hn|]. destruct (red360_cong (RN v)) as [k Hk]. exists (- k)%Z.
+  rewrite opp_IZR, Hr. replace (red360 (RN v) - (v + 360 * - IZR k)) with (RN v - v) by lra.
+  apply RN_tol.
 Qed.
 
 Ltac by_op L A :=
@@ -427,7 +467,7 @@ Definition op_ok_err (res : val PrimFloat.float) (v eps : R) : Prop :=
 
 Lemma ok_err res v : Rabs v <= 720 -> op_ok res v -> op_ok_err res v (bpow radix2 (-44)).
 Proof.
-  intros Hv (r & E & Fr & Hr & Hb & Hp & Hn). destruct (red360_cong (RN v)) as [k Hk].
+  intros Hv (r & E & Fr & Hr & Hb & Hp & Hn & _). destruct (red360_cong (RN v)) as [k Hk].
   exists r, (- k)%Z. repeat split; try assumption.
   rewrite opp_IZR, Hr. replace (red360 (RN v) - (v + 360 * - IZR k)) with (RN v - v) by lra.
   apply RN_err_720. exact Hv.
